@@ -19,7 +19,8 @@ def nontrivial(l):
 def run(ctx):
     return core.simple_check(
         ctx, jobs,
-        rule="seeded random: a haystack, a pattern of 0-3 atoms of every kind and polarity built from pieces of the haystack (so most match), parsed under a "
+        rule="seeded random: a haystack, a pattern of 0-3 atoms of every kind and polarity built from pieces of the haystack (so most match; one case in 300 has 1300-2000 matching atoms, a total "
+             "beyond 65535), parsed under a "
              "random CaseMatching x Normalization; one Matcher shared by all cases (its flags are whatever the previous atom left); Pattern::score, "
              "Pattern::indices, every Atom::score/indices, and Pattern::match_list over up to 5 items with duplicates and ties; distinct non-trivial = "
              "distinct (config, haystack, atoms) with a non-empty pattern and haystack",
